@@ -21,6 +21,7 @@ from pathlib import Path
 CID = "C18"
 OFFM = [0, 1, 7, 8, 56, 63]
 SIZES = [0, 1, 7, 8, 63, 64, 65, 127, 128, 129, 200]
+EQ_SIZES = [0, 1, 63, 64, 65, 127, 128, 129, 192, 256]
 WORK = V.BUILD / "c18"
 
 # Deviations of the real library from the array-of-bits reading that were confirmed while this check
@@ -57,6 +58,60 @@ FINDINGS = {
                "insw 0 0 0 16 1011", "fmt 0 16 1", "E"]),
 }
 
+
+
+# Public interface of BitVectorState.h / BitVectorState.cpp versus what this check covers.
+# level: T = universal Coq theorem (Properties_C18.v), M = Coq model compared with the real library on every
+# generated case (tie), O = additionally compared with the harness's own bit-array oracle.
+# `ops` are the operation-file tokens; their executed counts are added to the evidence at run time.
+PUBLIC_API = [
+    ("BitVectorState::resize", ["resize"], "TMO", "C18_resize, C18_resize_keeps_prefix"),
+    ("BitVectorState::size", [], "MO", "part of every contents dump"),
+    ("BitVectorState::clear() followed by resize", ["clearresize"], "TMO", "C18_clear_then_resize; clear() alone leaves size() unchanged with empty storage, see observations"),
+    ("BitVectorState::get", ["get"], "TMO", "C18_get"),
+    ("BitVectorState::set(plane,idx) / set(plane,idx,bit) / clear(plane,idx) / toggle", ["set1", "setb", "clear", "toggle"], "TMO", "C18_set1/_set/_clear/_toggle"),
+    ("BitVectorState::setRange (3 overloads) / clearRange", ["setrange"], "TMO", "C18_setRange"),
+    ("BitVectorState::copyRange", ["copy"], "TMO", "C18_copyRange (source and destination distinct objects)"),
+    ("BitVectorState::compareRange (DefaultConfig, ExtendedConfig specialisations)", ["cmp"], "TMO", "C18_compareRange_default/_extended"),
+    ("BitVectorState::data (read)", [], "M", "every contents dump reads the words through data()"),
+    ("BitVectorState::asBytes", ["asbytes"], "TMO", "C18_asBytes"),
+    ("BitVectorState::extract(start,size)", ["exts"], "TMO", "C18_extract_state"),
+    ("BitVectorState::insert(state,offset,size)", ["inss"], "TMO", "C18_insert_state"),
+    ("BitVectorState::extract(plane,offset,size) / extractNonStraddling / head", ["extw", "extns", "head"], "TMO", "C18_extract_word, C18_extractNonStraddling, C18_head"),
+    ("BitVectorState::insert(plane,offset,size,value) / insertNonStraddling", ["insw", "insns"], "TMO", "C18_insert_word, C18_insertNonStraddling"),
+    ("BitVectorState::range + iterator (prefix ++, !=, stepWidth, *it read, *it = v)", ["iterread", "iterwrite"], "TMO", "C18_iterator_read/_write"),
+    ("BitVectorState::operator== and != (both configs)", ["eq"], "TMO", "C18_equal, C18_equal_iff (true iff same size and all planes bit-wise equal)"),
+    ("BitVectorState::append", ["append"], "TMO", "C18_append"),
+    ("copy construction / copy assignment / move assignment / std::swap", ["assign", "move", "swap"], "TMO", "constructors OAssign/OMove/OSwap of C18_step"),
+    ("allDefinedNonStraddling", ["alldefns"], "TMO", "C18_allDefinedNonStraddling"),
+    ("allOne / allZero / allDefined / anyDefined", ["allone", "allzero", "alldef", "anydef"], "TMO", "C18_allOne/_allZero/_anyDefined (allDefined = allOne on DEFINED)"),
+    ("compareValues / equalOnDefinedValues / canBeReplacedWith", ["cmpval", "eqdef", "canrep"], "TMO", "C18_compareValues/_equalOnDefinedValues/_canBeReplacedWith"),
+    ("mergeUndefinedSelection", ["merge"], "TMO", "C18_mergeUndefinedSelection"),
+    ("extractBigInt(vec) / extractBigInt(vec,offset,size) / insertBigInt", ["extbigall", "extbig", "insbig"], "TMO", "C18_extractBigInt/_insertBigInt/_bigint_roundtrip"),
+    ("bitwiseNegation", ["bitneg"], "MO", "value 2^(64L)-1-|v| proved as lemma bitwiseNegation_value (BvsBig.v)"),
+    ("operator==(DefaultBitVectorState, span<const byte>) and !=", ["eqbytes"], "TMO", "C18_equal_bytes"),
+    ("asData", ["asdata"], "MO", ""),
+    ("convertToExtended / tryConvertToDefault", ["convext", "convdef"], "MO", ""),
+    ("parseBit(char) / parseBit(bool)", ["parsebit"], "MO", ""),
+    ("parseBitVector(string_view)", ["parse"], "TMO", "C18_parse_binary/_hex/_octal_literal (no width prefix), C18_parse_print_roundtrip; d / s bodies and width prefixes: MO only"),
+    ("parseBitVector(uint64_t value, size_t width)", ["pbv"], "MO", ""),
+    ("createDefaultBitVectorState(bitWidth, size_t value)", ["cdv"], "MO", "generated under the precondition value < 2^bitWidth, see observations"),
+    ("createDefaultBitVectorState(bitWidth, const void *data) / (span<const byte>)", ["cdd"], "MO", "generated under the precondition that the padding bits of the last byte are zero, see observations"),
+    ("createRandomDefaultBitVectorState / createDefinedRandomDefaultBitVectorState", [], "probe", "regression probe only (tail bits zero after a later resize)"),
+    ("operator<<(ostream, state)", ["print"], "TMO", "C18_print_binary (binary branch); hex branch MO"),
+    ("formatState", ["fmt"], "TMO", "C18_formatState_hex (base 16, dropLeadingZeros=false); other modes MO"),
+    ("formatRange", ["fmtr"], "MO", ""),
+]
+NOT_COVERED = [
+    ("BitVectorState::getNumBlocks", "not observed directly (implied by the dumps)"),
+    ("BitVectorState::data (write) / asWritableBytes", "raw storage access: the caller can break the tail-bits-zero invariant; out of scope"),
+    ("iterator::operator++(int) / iterator::mask", "postfix ++ returns an advanced copy without advancing *this; mask() shifts by 64 for a full chunk (undefined behaviour); neither is used in /repo/source"),
+    ("parseExtendedBit / parseExtendedBitVector", "same digit loop as parseBitVector with two more planes; not modelled"),
+    ("createBitVectorState / createDefaultBitVectorState(numWords, wordSize, functor)", "template over a user functor; composed of insert/insertNonStraddling which are covered"),
+    ("createExtendedBitVectorState(bitWidth, data) / (span)", "same memcpy as the DefaultConfig version; not modelled"),
+    ("operator==/!=(DefaultBitVectorState, span<const T>)", "one-line wrappers around the span<const byte> version"),
+    ("compareRange generic template", "never instantiated: both configurations are specialised"),
+]
 
 # --------------------------------------------------------------------------
 # generator
@@ -362,9 +417,185 @@ class Gen:
             body += r.choice(["g", "z", "-", " "]).strip() or "g"
         return w + kind + body, kind + ("+width" if w else "") + (":bad" if bad else "")
 
+
+    # ---- whole-object operations: copy / swap / move / clear+resize ----
+    def op_object(self):
+        k = self.rng.choice(["assign", "assign", "swap", "move", "clearresize"])
+        if k == "clearresize":
+            r = self.rng.randrange(self.nr)
+            n = self.rng.choice(EQ_SIZES + [200])
+            self.emit(f"clearresize {r} {n}", ["object:clear+resize"])
+            self.sz[r] = n
+            return True
+        a, b = self.two()
+        if k == "assign" and self.rng.random() < 0.1:
+            b = a
+        self.emit(f"{k} {a} {b}", [f"object:{k}"])
+        if k == "assign":
+            self.sz[a] = self.sz[b]
+        elif k == "swap":
+            self.sz[a], self.sz[b] = self.sz[b], self.sz[a]
+        else:
+            self.sz[a], self.sz[b] = self.sz[b], 0
+        return True
+
+    # ---- operator== / != : equal copy, then a difference confined to one block / one border bit ----
+    def eq_directed(self, size=None, positions=None):
+        a, b = self.two()
+        size = self.rng.choice(EQ_SIZES) if size is None else size
+        self.op_resize(a, size)
+        self.fill(a)
+        how = self.rng.choice(["assign", "exts", "copy"])
+        if how == "assign":
+            self.emit(f"assign {b} {a}", ["object:assign"])
+        elif how == "exts":
+            self.emit(f"exts {b} {a} 0 {size}", ["exts:" + ("memcpy" if size % 8 == 0 else "copyRange")], size > 0)
+        else:
+            self.op_resize(b, size)
+            self.emit(f"copy {b} 0 {a} 0 {size}", cls_copy(0, 0, size), size > 0)
+        self.sz[b] = size
+        self.emit(f"eq {a} {b}", [f"eq:equal-copy:size={size}"])
+        self.emit(f"eq {b} {a}", [f"eq:equal-copy:size={size}"])
+        nblk = (size + 63) // 64
+        if positions is None:
+            positions = []
+            for _ in range(3):
+                if size == 0:
+                    break
+                blk = self.rng.choice(sorted({0, nblk // 2, nblk - 1}))
+                lo, hi = 64 * blk, min(size, 64 * blk + 64) - 1
+                positions.append(self.rng.choice([lo, min(lo + 1, hi), max(hi - 1, lo), hi, self.rng.randint(lo, hi)]))
+        for pos in positions:
+            p = self.rng.randrange(self.np)
+            blk = pos // 64
+            where = "last" if blk == nblk - 1 else ("first" if blk == 0 else "middle")
+            if nblk == 1:
+                where = "only"
+            cl = [f"eq:diff-in-{where}-block", f"eq:diff:sizemod64={'0' if size % 64 == 0 else 'n'}:{where}",
+                  "eq:diff:bitmod64=" + cls_off(pos)]
+            self.emit(f"toggle {b} {p} {pos}", ["bit:toggle"])
+            self.emit(f"eq {a} {b}", cl)
+            self.emit(f"eq {b} {a}", cl)
+            if self.np == 2 or True:
+                self.emit(f"cmp {a} 0 {b} 0 {size}", [f"cmp:chunks={min((size + 63) // 64, 3)}"])
+            self.emit(f"toggle {b} {p} {pos}", ["bit:toggle"])
+        self.emit(f"eq {a} {b}", [f"eq:equal-copy:size={size}"])
+        if self.rng.random() < 0.5:
+            d = self.rng.choice([-1, 1, 64, -64])
+            if size + d >= 0:
+                self.op_resize(b, size + d)
+                self.emit(f"eq {a} {b}", ["eq:size-differs"])
+        return True
+
+    # ---- views and remaining queries ----
+    def op_view(self):
+        r = self.rng.randrange(self.nr)
+        sz = self.sz[r]
+        p = self.rng.randrange(self.np)
+        k = self.rng.choice(["head", "alldefns", "alldefns", "asbytes", "iterread", "iterwrite", "alldef", "extbigall", "convx"])
+        if k == "head":
+            if not 0 < sz <= 64:
+                r2 = r
+                self.op_resize(r2, self.rng.choice([1, 7, 63, 64]))
+                self.fill(r2)
+            self.emit(f"head {r} {p}", ["view:head"])
+        elif k == "alldefns":
+            n = self.len_in(min(sz, 64))
+            c = [o for o in ([64 * q + m for q in range(0, sz // 64 + 1) for m in OFFM + [64 - n]]) if 0 <= o and o % 64 + n <= 64 and o + n <= sz and o // 64 < (sz + 63) // 64]
+            if not c:
+                return False
+            off = self.rng.choice(c)
+            self.emit(f"alldefns {r} {off} {n}", ["view:alldefns:" + ("zero-length" if n == 0 else "full64" if n == 64 else "partial")], n > 0)
+        elif k == "asbytes":
+            self.emit(f"asbytes {r} {p}", [f"view:asbytes:sizemod8={'0' if sz % 8 == 0 else 'n'}"], sz > 0)
+        elif k == "iterread":
+            off, n = self.rng_range(sz)
+            self.emit(f"iterread {r} {p} {off} {n}", [f"iter:read:chunks={min((n + 63) // 64, 3)}"], n > 0)
+        elif k == "iterwrite":
+            off, n = self.rng_range(sz)
+            v = self.rng.getrandbits(n + self.rng.choice([0, 0, 5])) if n else self.rng.getrandbits(3)
+            self.emit(f"iterwrite {r} {p} {off} {n} {v:x}", [f"iter:write:chunks={min((n + 63) // 64, 3)}"], n > 0)
+        elif k == "alldef":
+            s = self.off_in(0, sz)
+            ntok = "max" if self.rng.random() < 0.4 else str(self.len_in(sz - s))
+            self.emit(f"alldef {r} {s} {ntok}", ["all:alldef"])
+        elif k == "extbigall":
+            if sz == 0:
+                return False
+            if sz > 64 and False:
+                return False
+            self.emit(f"extbigall {r}", ["big:ext:whole"], True)
+        else:
+            self.emit(("convext" if self.np == 2 else "convdef") + f" {r}", ["view:convert:" + ("toExtended" if self.np == 2 else "tryToDefault")])
+        return True
+
+    # ---- state == bytes, asData, creation helpers (DefaultConfig only) ----
+    def op_bytes(self):
+        if self.np != 2:
+            return False
+        r = self.rng.randrange(self.nr)
+        k = self.rng.choice(["eqbytes", "eqbytes", "asdata", "pbv", "cdv", "cdd", "parsebit", "bitneg"])
+        if k == "eqbytes":
+            n = self.rng.choice([0, 1, 7, 8, 9, 15, 16, 17, 24, 32])
+            bs = [self.rng.getrandbits(8) for _ in range(n)]
+            hx = "".join(f"{b:02x}" for b in bs) or "_"
+            self.emit(f"cdd {r} {8 * n} {hx if n else '00'}", ["create:data"])
+            self.sz[r] = 8 * n
+            self.emit(f"eqbytes {r} {hx}", [f"eqbytes:equal:bytes={n}"])
+            if n:
+                for _ in range(2):
+                    i = self.rng.choice([0, n - 1, (n // 8) * 8 - 1 if n >= 8 else 0, min((n // 8) * 8, n - 1), self.rng.randrange(n)])
+                    b2 = list(bs)
+                    b2[i] ^= 1 << self.rng.choice([0, 7, self.rng.randrange(8)])
+                    where = "full-words" if i < (n // 8) * 8 else "partial-last-word"
+                    self.emit(f"eqbytes {r} " + "".join(f"{b:02x}" for b in b2), [f"eqbytes:differs-in-{where}"])
+                self.emit(f"eqbytes {r} " + "".join(f"{b:02x}" for b in bs[:-1]) + ("" if n > 1 else "_"), ["eqbytes:wrong-size"])
+                i = self.off_in(0, 8 * n - 1)
+                self.emit(f"setb {r} 1 {i} 0", ["bit:setb"])
+                self.emit(f"eqbytes {r} {hx}", ["eqbytes:undefined-bit"])
+        elif k == "asdata":
+            n = self.rng.choice([0, 1, 3, 8, 9, 16])
+            self.op_resize(r, 8 * n + (self.rng.choice([1, 4, 7]) if self.rng.random() < 0.15 else 0))
+            self.fill(r)
+            f = self.rng.choice(["_", "00", "ff", "a55a3c", "0102030405060708090a"])
+            self.emit(f"asdata {r} {f}", ["asdata:" + ("default-filler" if f == "_" else "filler") + (":bad-size" if self.sz[r] % 8 else "")])
+        elif k == "pbv":
+            w = self.rng.choice([0, 1, 7, 8, 63, 64, 65, 128, 130])
+            self.emit(f"pbv {r} {self.value():x} {w}", [f"create:parseBitVector(value,width):{'<=64' if w <= 64 else '>64'}"])
+            self.sz[r] = w
+        elif k == "cdv":
+            w = self.rng.choice([1, 7, 8, 63, 64, 65, 128, 130, 0])
+            v = self.value() & ((1 << min(w, 64)) - 1)      # precondition: the value fits into bitWidth bits
+            self.emit(f"cdv {r} {w} {v:x}", ["create:value" + (":width0-throws" if w == 0 else "")])
+            if w == 0:
+                self.op_resize(r)
+            else:
+                self.sz[r] = w
+        elif k == "cdd":
+            w = self.rng.choice([0, 1, 7, 8, 9, 63, 64, 65, 128, 130])
+            nb = (w + 7) // 8
+            v = self.rng.getrandbits(w) if w else 0         # precondition: padding bits of the last byte are zero
+            hx = "".join(f"{(v >> (8 * i)) & 255:02x}" for i in range(nb)) or "00"
+            self.emit(f"cdd {r} {w} {hx}", ["create:data"])
+            self.sz[r] = w
+        elif k == "parsebit":
+            c = self.rng.choice(["0", "1", "x", "X", "true", "false", "q", "2"])
+            self.emit(f"parsebit {r} {c}", ["create:parseBit" + (":bad" if c in ("q", "2") else "")])
+            self.op_resize(r)
+        else:
+            bits = self.rng.choice([0, 1, 63, 64, 65, 128, 130])
+            z = self.rng.getrandbits(bits) if bits else 0
+            neg = self.rng.random() < 0.5 and z
+            self.emit(f"bitneg {'-' if neg else ''}{z:x} {self.rng.choice([0, 1, 64, 65, 128, 200])}", ["big:bitwiseNegation"])
+        return True
+
+    def op_eqd(self):
+        return self.eq_directed()
+
     KINDS = [("op_bit", 10), ("op_setrange", 10), ("op_word", 14), ("op_copy", 18), ("op_exts", 6),
              ("op_inss", 6), ("op_append", 4), ("op_eq", 3), ("op_all", 8), ("op_canrep", 3),
-             ("op_big", 10), ("op_resize", 5), ("op_text", 5)]
+             ("op_big", 10), ("op_resize", 5), ("op_text", 5), ("op_object", 6), ("op_view", 10),
+             ("op_bytes", 6), ("op_eqd", 3)]
 
     def random_op(self):
         names = [k for k, w in self.KINDS for _ in range(w)]
@@ -702,6 +933,69 @@ def seq_valid(lines):
                     return False
                 if k == "extbig" and not num(2) // 64 < nw(S(1)):
                     return False
+            elif k == "assign":
+                sz[reg(1)] = S(2)
+            elif k == "swap":
+                a, b = S(1), S(2)
+                sz[reg(1)], sz[reg(2)] = b, a
+            elif k == "move":
+                if reg(1) == reg(2):
+                    return False
+                sz[reg(1)] = S(2)
+                sz[reg(2)] = 0
+            elif k == "clearresize":
+                if not 0 <= reg(1) < nr:
+                    return False
+                sz[reg(1)] = num(2)
+            elif k == "head":
+                if not (pl(2) and 0 < S(1) <= 64):
+                    return False
+            elif k == "alldefns":
+                if not (np_ >= 2 and num(2) % 64 + num(3) <= 64 and num(2) + num(3) <= S(1) and num(2) // 64 < nw(S(1))):
+                    return False
+            elif k == "alldef":
+                if not num(2) <= S(1):
+                    return False
+            elif k == "extbigall":
+                if not 0 < S(1):
+                    return False
+            elif k == "asbytes":
+                if not pl(2):
+                    return False
+                S(1)
+            elif k in ("iterread", "iterwrite"):
+                if not (pl(2) and num(3) + num(4) <= S(1)):
+                    return False
+            elif k in ("eqbytes", "asdata"):
+                if np_ != 2:
+                    return False
+                S(1)
+            elif k == "convext":
+                if np_ != 2:
+                    return False
+                S(1)
+            elif k == "convdef":
+                if np_ != 4:
+                    return False
+                S(1)
+            elif k == "bitneg":
+                pass
+            elif k == "pbv":
+                if np_ != 2:
+                    return False
+                sz[reg(1)] = num(3)
+            elif k == "cdv":
+                if np_ != 2:
+                    return False
+                sz[reg(1)] = num(2) if num(2) else None
+            elif k == "cdd":
+                if np_ != 2 or (t[3] != "_" and len(t[3]) // 2 < (num(2) + 7) // 8):
+                    return False
+                sz[reg(1)] = num(2)
+            elif k == "parsebit":
+                if np_ != 2 or not 0 <= reg(1) < nr:
+                    return False
+                sz[reg(1)] = None
             elif k == "parse":
                 if np_ != 2 or not 0 <= reg(1) < nr:
                     return False
@@ -846,8 +1140,34 @@ def main():
     nseq = 400 if tier == "quick" else 4000
     for i in range(nseq):
         g.random_sequence(f"r{i}", 10 if tier == "quick" else 50)
+    # operator== / != : every size of EQ_SIZES, difference in first / middle / last block, border bits
+    for np_ in (2, 4):
+        for size in EQ_SIZES:
+            g.start(f"eq{np_}_{size}", np_, 3)
+            nblk = (size + 63) // 64
+            pos = sorted({q for b in {0, nblk // 2, max(nblk - 1, 0)} for q in (64 * b, 64 * b + 1, 64 * b + 62, 64 * b + 63) if q < size} | ({size - 1} if size else set()))
+            g.eq_directed(size, pos)
+            g.end()
     exhaustive_grid = False
     if tier == "thorough":
+        # every single bit of every plane as the only difference
+        for np_ in (2, 4):
+            for size in EQ_SIZES[1:]:
+                g.start(f"eqall{np_}_{size}", np_, 2)
+                g.op_resize(0, size)
+                g.fill(0)
+                g.emit("assign 1 0", ["object:assign"])
+                g.sz[1] = size
+                nblk = (size + 63) // 64
+                for p in range(np_):
+                    for pos in range(size):
+                        blk = pos // 64
+                        where = "only" if nblk == 1 else "last" if blk == nblk - 1 else "first" if blk == 0 else "middle"
+                        g.emit(f"toggle 1 {p} {pos}", ["bit:toggle"])
+                        g.emit("eq 0 1", [f"eq:diff-in-{where}-block", f"eq:diff:sizemod64={'0' if size % 64 == 0 else 'n'}:{where}"])
+                        g.emit(f"toggle 1 {p} {pos}", ["bit:toggle"])
+                g.emit("eq 1 0", [f"eq:equal-copy:size={size}"])
+                g.end()
         k = 0
         for kind in ["setrange", "word", "copy", "cmp", "exts", "inss", "all", "bitloops", "big"]:
             for pattern, np_ in [("rand", 2), ("ones", 2), ("alt", 2), ("sparse", 2), ("rand", 4)]:
@@ -914,7 +1234,7 @@ def main():
     exc_lines = 0
     with open(out_cpp) as f:
         for l in f:
-            if " EXC " in l:
+            if " EXC " in l and l.split()[1] not in ("asdata", "cdv"):   # those two throw by design on bad sizes
                 exc_lines += 1
     if exc_lines and not tie_broken:
         tie_broken = f"{exc_lines} generated in-bounds operations threw inside the real container"
@@ -931,6 +1251,14 @@ def main():
     rep.cov["traces_validated_against_impl"] = nlines if not tie_broken else 0
     rep.cov["result_lines_compared"] = nlines
     rep.cov["class_histogram"] = dict(sorted(g.hist.items()))
+    opcount = Counter(l.split()[0] for l in corpus_lines + g.lines if l and l.split()[0] not in ("S", "E", "#"))
+    rep.cov["public_api_covered"] = [dict(operation=n, level=lv, executed=sum(opcount[o] for o in ops), theorems_or_note=note)
+                                     for n, ops, lv, note in PUBLIC_API]
+    rep.cov["public_api_not_covered"] = [dict(operation=n, reason=r) for n, r in NOT_COVERED]
+    rep.cov["public_api_legend"] = "T = universal Coq theorem, M = model vs real library on every generated case, O = real library vs the harness's bit-array oracle"
+    zero = [n for n, ops, lv, note in PUBLIC_API if ops and sum(opcount[o] for o in ops) == 0]
+    if zero:
+        V.infra_error("generator bug: covered operations never executed: " + "; ".join(zero))
     rep.cov["exhaustive"] = False
     rep.cov["grid_exhaustive"] = exhaustive_grid
     rep.cov["corpus_files"] = [os.path.basename(c) for c in corpus]
@@ -946,6 +1274,12 @@ def main():
 
     # ---- confirmed findings: probe them on the real library every run ----
     _, probe_out = V.run([exe, "probe"])
+    obs_text = {
+        "clear_keeps_size": "clear() empties the word vectors but keeps size(): the container is inconsistent (every access out of bounds) until the next resize()",
+        "create_value_wider_than_width_exposed_by_resize": "createDefaultBitVectorState(8, 0x1FF) stores bit 8 above size(); resize(16) exposes it (precondition used by the generator: value < 2^bitWidth)",
+        "create_data_padding_bits_exposed_by_resize": "createDefaultBitVectorState(13, {0xff,0xff}) stores bits 13..15 above size(); resize(16) exposes them (precondition used by the generator: padding bits zero)",
+    }
+    rep.cov["observations"] = {k: dict(present=("PROBE " + k + " 1") in probe_out, text=t) for k, t in obs_text.items()}
     for fid, fd in FINDINGS.items():
         if fd["probe"] is None:
             present = "PROBE " + fid + " 1" in probe_out
